@@ -76,9 +76,12 @@ def RuleState.step (glob : Str → Str) (s : RuleState) : RuleOp → Except ErrK
     .ok { cfg := { s.cfg with anything := true, importDir := some false }, next := some false }
 
 /-- `_get_modules_to_check_without_parent_and_submodule_combinations` (after fix 45f814d: a subject
-    is dropped iff its identifier starts with another subject's identifier followed by a dot) -/
+    is dropped iff its identifier starts with a covering subject's identifier followed by a dot; after the repair of
+    F-C12a only a subject that is NOT a 'sub modules of' filter (`identifier_is_parent_module == False`) can cover
+    another subject: 'sub modules of p' does not contain `p` itself, so dropping `p.a` in its favour lost the imports
+    of `p` by the descendants of `p.a`) -/
 def dedupSubjects (fs : List Filter) : List Filter :=
-  fs.filter fun m => !(fs.any fun other => isStrictSub other.id m.id)
+  fs.filter fun m => !(fs.any fun other => !other.isParent && isStrictSub other.id m.id)
 
 /-- the rule subjects `_convert_aliases` removes: those not retained by the de-duplication, in subject order -/
 def droppedSubjects (fs : List Filter) : List Filter :=
